@@ -2041,7 +2041,7 @@ class Data(Container, NetCDFHDF5, Files, core.Data):
 
         """
         try:
-            return self._get_Array().get_interpolation_parameters()
+            return self._get_Array().get_parameters()
         except (AttributeError, ValueError):
             return self._default(
                 default,
